@@ -63,7 +63,8 @@ func (s *socket) RecvMsg() (*protocol.Message, error) {
 	timeQ := nilQ
 	for {
 		s.Lock()
-		if s.recvExpire > 0 {
+		if s.recvExpire > 0 && timeQ == nil {
+			// armed once: a queue resize must not restart the deadline
 			timeQ = time.After(s.recvExpire)
 		}
 		closeQ := s.closeQ
